@@ -289,6 +289,14 @@ pub mod verif {
         pub unsafe fn stub_dealloc(_ptr: *mut u8, _layout: core::alloc::Layout) {
             note_alloc_event();
         }
+        /// `format!` / `alloc::fmt::format`: building a String is a heap allocation. Stubbed so that (a) it is reported at the
+        /// call like the other allocator entry points and (b) the formatting machinery does not end up in the formula.
+        #[cfg(all(kani, feature = "alloc"))]
+        pub fn stub_format(_args: core::fmt::Arguments<'_>) -> alloc::string::String {
+            assert!(ALLOC_ARMED.load(Ordering::Relaxed) != 1, "C18 heap allocation (format!) reached while a primitive is in use");
+            note_alloc_event();
+            alloc::string::String::new()
+        }
         #[cfg(all(kani, feature = "alloc"))]
         pub unsafe fn stub_realloc(_ptr: *mut u8, layout: core::alloc::Layout, new_size: usize) -> *mut u8 {
             assert!(ALLOC_ARMED.load(Ordering::Relaxed) != 1, "C18 heap allocation (realloc) reached while a primitive is in use");
